@@ -2,6 +2,7 @@
    Only statements. *)
 From Coq Require Import ZArith List Bool String.
 From PL.C25 Require Import ModelDimacs ProofsDimacs.
+From PL.C25 Require Import DimacsPrelude GenDimacs ProofsGen.
 Import ListNotations.
 Open Scope Z_scope.
 
@@ -27,4 +28,41 @@ Example C25_dimacs_example :
   wf_cnf {| atomcount := 3; clauses := [(HInt 3, [-1; -2]); (HInt (-3), [1]); (HBool false, [-1; -2]); (HNone, [12; -10])] |} = true /\
   to_dimacs_lines {| atomcount := 3; clauses := [(HInt 3, [-1; -2]); (HInt (-3), [1]); (HBool false, [-1; -2]); (HNone, [12; -10])] |}
   = [["p"; "cnf"; "3"; "4"]; ["3"; "-1"; "-2"; "0"]; ["-3"; "1"; "0"]; ["-1"; "-2"; "0"]; ["12"; "-10"; "0"]]%string.
+Proof. vm_compute. split; reflexivity. Qed.
+
+(* ------------------------------------------------------------------------------------
+   Tie by translation: GenDimacs.v is regenerated on every run from problog/cnf_formula.py
+   (CNF.to_dimacs and the non-partial, non-weighted path of CNF._contents, default options) by the
+   fail-closed translator gen/c25_dimacs.py (vocabulary: DimacsPrelude.v).
+   The token lines read off the translated code ARE the hand model, on every cnf: *)
+Theorem C25_generated_is_model : forall f : cnf, to_dimacs_lines_gen f = to_dimacs_lines f.
+Proof. exact to_dimacs_lines_gen_is_model. Qed.
+Print Assumptions C25_generated_is_model.
+
+(* what the translated _contents returns: the header [atomcount, len(clauses)] and, per stored
+   clause, the body with the head in front unless the head is None or False *)
+Theorem C25_generated_contents : forall f : cnf,
+  contents_gen f = ([HInt (atomcount f); HInt (Z.of_nat (List.length (clauses f)))], map printed_clause (clauses f)).
+Proof. exact contents_gen_spec. Qed.
+Print Assumptions C25_generated_contents.
+
+(* the translated to_dimacs (STRING level: "p %s %s\n" %, " ".join, + " 0", "\n".join) produces exactly
+   the text the token lines stand for (tokens joined by " ", header line terminated by "\n", clause lines
+   joined by "\n"), for every cnf without an empty printed clause (for which the code writes " 0",
+   two tokens for str.split(" ")) *)
+Theorem C25_generated_string_is_rendered_lines : forall f : cnf, nonempty_clauses f = true ->
+  to_dimacs_str_gen f = render (to_dimacs_lines f).
+Proof. intros f H. rewrite <- to_dimacs_lines_gen_is_model. now apply to_dimacs_str_gen_renders_lines. Qed.
+Print Assumptions C25_generated_string_is_rendered_lines.
+
+(* the round trip, stated for the generated definition *)
+Theorem C25_generated_roundtrip : forall f, wf_cnf f = true ->
+  read_dimacs (to_dimacs_lines_gen f) = Some (atomcount f, map clause_lits (clauses f)).
+Proof. exact gen_roundtrip. Qed.
+Print Assumptions C25_generated_roundtrip.
+
+Example C25_generated_example :
+  nonempty_clauses {| atomcount := 3; clauses := [(HInt 3, [-1; -2]); (HInt (-3), [1]); (HBool false, [-1; -2]); (HNone, [12; -10])] |} = true /\
+  to_dimacs_str_gen {| atomcount := 3; clauses := [(HInt 3, [-1; -2]); (HInt (-3), [1]); (HBool false, [-1; -2]); (HNone, [12; -10])] |}
+  = ("p cnf 3 4" ++ nl ++ "3 -1 -2 0" ++ nl ++ "-3 1 0" ++ nl ++ "-1 -2 0" ++ nl ++ "12 -10 0")%string.
 Proof. vm_compute. split; reflexivity. Qed.
